@@ -86,7 +86,7 @@ def run(chk, replay=None):
     if replay and replay.get("case"):
         print("replay case:", replay["case"])
     t0 = time.time()
-    nsim, depth = (1100, 9) if tier == "thorough" else (160, 8)
+    nsim, depth = (1100, 9) if tier == "thorough" else (130, 8)
     sim_small = P.pool_cfg(init="PoolInit", ctxs="PoolCtxs", max_ops=6, max_depth=6, nest_anytime=True, check=False)
     behs = P.simulate_parallel("ExprOps_MC", sim_small, num=nsim, depth=depth, seed=chk.seed + 1, jobs=5)
     sim_big = P.pool_cfg(init="F2", ctxs="PoolCtxs", max_ops=6, max_depth=6, nest_anytime=True, leafs=("x", "y"),
